@@ -490,7 +490,8 @@ def spell_call(tv, name_token, rng, last_call):
         opts = param_options(tv, p, rng)
         if tv.kind[p] != "req" and rng.random() < 0.35:
             continue
-        its, _ = rng.choice(opts)
+        pos_opts = [o for o in opts if o[0] and o[0][0][0] == "P"]
+        its, _ = rng.choice(pos_opts) if pos_opts and rng.random() < 0.5 else rng.choice(opts)
         items += its
     items = merge_blocks(tv, items, rng)
     seq = None
@@ -603,7 +604,7 @@ def damage(rng, argv, world):
     return argv
 
 
-def form_hist(out, chain):
+def form_hist(out, chain, names=()):
     for c in chain:
         for it in c["items"]:
             t = it[0]
@@ -612,6 +613,11 @@ def form_hist(out, chain):
             if t in ("S", "E"):
                 name += "-short" if len(it[1]) == 2 else "-long"
             out.hist["form:" + name] += 1
+            v = it[2] if t in ("S", "E", "G") else it[1] if t == "P" else None
+            if v is not None:
+                cls = ("empty" if v == "" else "flag-like" if v.startswith("-") else "has-eq" if "=" in v else
+                       "task-name" if v in names else "plain")
+                out.hist["value:" + cls] += 1
 
 
 def run(ctx):
@@ -619,7 +625,7 @@ def run(ctx):
     rng = ctx.rng
     drv = LeanDriver("drv_spell")
     worlds, batch = [], []
-    n_worlds = ctx.n(700, 10000)
+    n_worlds = ctx.n(900, 10000)
     per_world = 5
     skipped = 0
     for _ in range(n_worlds):
@@ -654,7 +660,7 @@ def run(ctx):
         nontrivial = chain is not None and any(c["items"] for c in chain)
         out.case({"tasks": case["tasks"], "argv": case["argv"]}, nontrivial)
         if chain is not None:
-            form_hist(out, chain)
+            form_hist(out, chain, w.all_names)
             out.hist["chain_len_%d" % len(chain)] += 1
             if len(chain) > 1 and len(set(c["primary"] for c in chain)) < len(chain):
                 out.hist["same_task_twice"] += 1
